@@ -1,13 +1,25 @@
-import RsMatterVerif.Lemmas.AdminHist
+import RsMatterVerif.Lemmas.AdminCommit
 /-!
 # C08 — commissioning under the fail-safe is all-or-nothing
 
 Model: `Model/Admin.lean` (transliteration of `failsafe.rs` and of the handler glue).
 
 1. **Command gating** (`csr_accept_iff`, `root_accept_iff`, `addnoc_accept_iff`, `updnoc_accept_iff`,
-   `only_failsafe_context`, `csr_once`, `root_once`, `noc_once`): the credential commands are accepted
-   exactly when the specification table (written below from the property text) says so - prescribed
-   order, once each, only from the session context the fail-safe is bound to.
+   `only_failsafe_context`, `addnoc_accepted_in_order`, `csr_once`, `root_once`, `noc_once`,
+   `noc_once_per_failsafe`): the
+   credential commands are accepted exactly when the accept table says so.  The table has two parts:
+   the SPECIFICATION written from the property text - prescribed order, once each, only from the
+   fail-safe's context (`specCsr`, `specRoot`, `specUpdNoc`, `specAddNocOrder`) - and, for AddNOC, the
+   feasibility conditions of the code (`addNocFeasible`: valid admin subject, NOC issued by the staged
+   root, no fabric conflict, a free index, room in the table, no deferred change pending, the PASE
+   session not promoted yet), which are a refinement fact (they restate the branches of `add_noc`).
+   **"Context" is the fabric association, not the session** - the Matter rule (core spec 11.10.7.2,
+   "Fail-Safe Context") and what `failsafe.rs` `check_state` compares: the fail-safe is bound to "no
+   fabric" while it was armed over PASE and AddNOC has not happened, else to a fabric index; a command
+   is in context when the fabric index of its session equals that.  So ANY un-promoted PASE session
+   is in the context of a PASE-armed fail-safe, and ANY CASE session of the fail-safe's fabric - also
+   one of another node of that fabric - is in the context of a fail-safe armed over CASE (examples
+   below).  "Only from the session that armed it" is NOT claimed and is not what the code does.
 2. **Coherence invariant, store faults included** (`coherent_always_faults`): after EVERY history
    (factory reset excluded) node and store agree on every fabric except the one the fail-safe is
    armed for and the *dirty* ones - a fabric-scoped write outside the fail-safe that was answered with
@@ -15,7 +27,13 @@ Model: `Model/Admin.lean` (transliteration of `failsafe.rs` and of the handler g
 3. **Rollback restores** (`rollback_restores`, `restart_restores`): when the fail-safe ends by expiry
    (timer, ArmFailSafe(0), RevokeCommissioning - all three run `expire`) or by a restart, node and
    store agree on the fail-safe's fabric, on every clean fabric and on the networks, and the
-   rollback itself writes no fabric / network key.
+   rollback itself writes no fabric / network key.  These say "the STORED view is restored";
+   "exactly what they were before arming" is `rollback_restores_state_before_arming` (expiry) and
+   `restart_restores_state_before_arming` (restart), under the hypothesis `StoreQuiet`: no step of the
+   armed period changes the fabric keys or the network key of the store - which excludes every
+   acknowledged write / RemoveFabric of ANY fabric in that period and the partial commit of a failing
+   CommissioningComplete (without it the statement is false: `C08_full_rollback_false`).
+   All history theorems are about histories WITHOUT factory reset (`Op.freset ∉ ops`).
 4. **Commit is joint** (`commit_is_joint`): an acknowledged CommissioningComplete leaves node and
    store equal and the fail-safe disarmed; `failed_complete_stays_armed`: a CommissioningComplete that
    is answered with an error leaves the fail-safe armed (so that it rolls back or can be retried).
@@ -32,7 +50,10 @@ open Admin
 
 /-! ## specification of the credential commands (from the property text) -/
 
-/-- the session context the command arrives in is the one the fail-safe is bound to -/
+/-- the command arrives in the fail-safe's context: the fabric index of its session equals the fabric
+index the fail-safe is bound to (`0` = none: armed over PASE, no AddNOC yet).  This is the Matter rule
+(the Fail-Safe Context is associated with a fabric, not with a session) and the comparison of
+`failsafe.rs` `check_state` / `check_armed`; it does not identify the arming session. -/
 def inContext (n : Node) (mode : Mode) : Bool :=
   match n.fs with
   | none => false
@@ -66,6 +87,31 @@ theorem root_accept_iff (cfg : Cfg) (n : Node) (sid s ca : Nat) (mode : Mode) :
   | some a =>
     by_cases h1 : a.fab = mode.fab <;> by_cases h2 : a.flags.root <;> simp_all [ok, Status.accepted]
 
+theorem inContext_iff (n : Node) (mode : Mode) :
+    inContext n mode = true ↔ ∃ a, n.fs = some a ∧ a.fab = mode.fab := by
+  unfold inContext
+  cases n.fs with
+  | none => simp
+  | some a => simp
+
+/-- what "context" does NOT mean, 1: a second PASE session (1) runs the whole credential sequence
+under the fail-safe that the first PASE session (0) armed -/
+example :
+    let ops : List Op := [.boot, .pase, .pase, .arm 0 60, .csr 1 false, .root 1 1, .addnoc 1 1 5 10 100 1]
+    ((run {} {} ops).fabrics.map (·.idx)) = [1] ∧
+    ((run {} {} ops).sessions.map (fun s => (s.id, s.mode.fab))) = [(0, 0), (1, 1)] := by
+  refine ⟨by decide, by decide⟩
+
+/-- what "context" does NOT mean, 2: the fail-safe is armed over the CASE session 1 of node 100 of
+fabric 1; the CASE session 2 of ANOTHER node (200) of fabric 1 runs CSRRequest / UpdateNOC /
+CommissioningComplete under it -/
+example :
+    let ops : List Op := [.boot, .pase, .arm 0 60, .csr 0 false, .root 0 1, .addnoc 0 1 5 10 100 1,
+      .caseEst 1 100 1, .complete 1, .caseEst 1 200 2, .arm 1 60, .csr 2 true, .updnoc 2 11 2, .complete 2]
+    (run {} {} ops).fs = none ∧ ((run {} {} ops).fabrics.map (fun f => (f.node, f.ser))) = [(11, 2)] := by
+  refine ⟨by decide, by decide⟩
+
+/-- (refinement, not specification: the index allocation of `Fabrics::add_with_post_init`) -/
 def freeIdx (n : Node) : Option Nat :=
   if maxIdx n.fabrics < 254 then some (maxIdx n.fabrics + 1)
   else (List.range 255).find? (fun i => 1 ≤ i && !hasFabric n i)
@@ -76,6 +122,30 @@ def deferredOf (n : Node) : Bool :=
   | none => false
   | some a => a.deferred
 
+/-- **AddNOC, the specification** (from the property text): from the fail-safe's context, after
+CSRRequest (not the UpdateNOC variant) and AddTrustedRootCertificate, and at most one NOC command
+per fail-safe -/
+def specAddNocOrder (n : Node) (mode : Mode) : Bool :=
+  inContext n mode
+  && ((flagsOf n).root && (flagsOf n).addCsr)
+  && !((flagsOf n).addNoc || (flagsOf n).updCsr || (flagsOf n).updNoc)
+
+/-- **AddNOC, the feasibility conditions of the code** (a refinement fact - they restate the remaining
+branches of `FailSafe::add_noc` / `noc.rs` `handle_add_noc`, and say nothing the property demands): the
+admin subject is a node id, the NOC is issued by the staged root, no fabric of that root has the
+fabric id, an index is free and the table has room, the context holds no deferred change of an
+existing fabric (fix de537e5), and a PASE session has not been promoted to a fabric already -/
+def addNocFeasible (cfg : Cfg) (n : Node) (mode : Mode) (ca fid subj : Nat) : Bool :=
+  isNodeId subj && decide (ca = n.staged)
+  && !(n.fabrics.any (fun f => f.fid = fid && f.ca = n.staged))
+  && (freeIdx n).isSome && decide (n.fabrics.length < cfg.maxFabrics)
+  && !(decide (mode.fab ≠ 0) && deferredOf n)
+  && (match mode with
+      | .pase 0 => true
+      | .pase _ => false
+      | .case _ => true)
+
+/-- the accept table of AddNOC: specification and feasibility -/
 def specAddNoc (cfg : Cfg) (n : Node) (mode : Mode) (ca fid subj : Nat) : Bool :=
   inContext n mode
   && ((flagsOf n).root && (flagsOf n).addCsr)
@@ -88,6 +158,11 @@ def specAddNoc (cfg : Cfg) (n : Node) (mode : Mode) (ca fid subj : Nat) : Bool :
       | .pase 0 => true
       | .pase _ => false
       | .case _ => true)
+
+theorem specAddNoc_split (cfg : Cfg) (n : Node) (mode : Mode) (ca fid subj : Nat) :
+    specAddNoc cfg n mode ca fid subj = (specAddNocOrder n mode && addNocFeasible cfg n mode ca fid subj) := by
+  unfold specAddNoc specAddNocOrder addNocFeasible
+  simp only [Bool.and_assoc]
 
 def specUpdNoc (n : Node) (mode : Mode) : Bool :=
   inContext n mode && mode.isCase && (flagsOf n).updCsr
@@ -118,10 +193,10 @@ theorem updnoc_accept_iff (cfg : Cfg) (n : Node) (sid s node ser : Nat) (mode : 
           by_cases h2 : a.flags.updCsr <;> by_cases h3 : a.flags.root <;> by_cases h4 : a.flags.addNoc <;>
             by_cases h5 : a.flags.addCsr <;> by_cases h6 : a.flags.updNoc <;> simp_all [ok, Status.accepted]
     · simp_all [ok, Status.accepted]
-theorem addnoc_accept_iff (cfg : Cfg) (n : Node) (sid s ca fid node subj ser : Nat) (mode : Mode) :
-    (sessOp cfg n sid mode (.addnoc s ca fid node subj ser)).2.accepted = true ↔
+theorem addNoc_accept_iff (cfg : Cfg) (n : Node) (sid ca fid node subj ser : Nat) (mode : Mode) :
+    (addNoc cfg n sid mode ca fid node subj ser).2.accepted = true ↔
       specAddNoc cfg n mode ca fid subj = true := by
-  unfold sessOp specAddNoc inContext flagsOf deferredOf checkArmed checkState freeIdx
+  unfold addNoc specAddNoc inContext flagsOf deferredOf checkArmed checkState freeIdx
   cases hfs : n.fs with
   | none => simp [Status.accepted]
   | some a =>
@@ -135,6 +210,50 @@ theorem addnoc_accept_iff (cfg : Cfg) (n : Node) (sid s ca fid node subj ser : N
       all_goals simp_all [Status.accepted]
       all_goals grind
 
+/-- the retry of a failed resumption-cache store touches nothing the gating looks at -/
+theorem retryResum_same (n : Node) :
+    (retryResum n).1.fs = n.fs ∧ (retryResum n).1.staged = n.staged ∧ (retryResum n).1.fabrics = n.fabrics := by
+  have hk : (kvTick n).1.fs = n.fs ∧ (kvTick n).1.staged = n.staged ∧ (kvTick n).1.fabrics = n.fabrics := by
+    unfold kvTick; split <;> (try split) <;> exact ⟨rfl, rfl, rfl⟩
+  unfold retryResum
+  split
+  · unfold storeResum
+    rcases ht : kvTick n with ⟨n1, bad⟩
+    rw [ht] at hk
+    cases bad <;> exact hk
+  · exact ⟨rfl, rfl, rfl⟩
+
+theorem specAddNoc_congr (cfg : Cfg) (n n' : Node) (mode : Mode) (ca fid subj : Nat)
+    (h1 : n'.fs = n.fs) (h2 : n'.staged = n.staged) (h3 : n'.fabrics = n.fabrics) :
+    specAddNoc cfg n' mode ca fid subj = specAddNoc cfg n mode ca fid subj := by
+  unfold specAddNoc inContext flagsOf deferredOf freeIdx hasFabric
+  rw [h1, h2, h3]
+
+/-- AddNOC is accepted exactly when the spec table holds - and the retry of a resumption-cache store
+that had failed (the first thing the command does) does not fail again -/
+theorem addnoc_accept_iff (cfg : Cfg) (n : Node) (sid s ca fid node subj ser : Nat) (mode : Mode) :
+    (sessOp cfg n sid mode (.addnoc s ca fid node subj ser)).2.accepted = true ↔
+      ((retryResum n).2 = true ∧ specAddNoc cfg n mode ca fid subj = true) := by
+  have ⟨h1, h2, h3⟩ := retryResum_same n
+  simp only [sessOp]
+  rcases hr : retryResum n with ⟨n1, b⟩
+  rw [hr] at h1 h2 h3
+  simp only at h1 h2 h3
+  cases b with
+  | false => simp [Status.accepted]
+  | true =>
+    simp only [true_and]
+    rw [addNoc_accept_iff, specAddNoc_congr cfg n n1 mode ca fid subj h1 h2 h3]
+
+/-- **AddNOC is never accepted outside the specification** (order, once, context) - whatever the
+feasibility conditions say -/
+theorem addnoc_accepted_in_order (cfg : Cfg) (n : Node) (sid s ca fid node subj ser : Nat) (mode : Mode)
+    (hacc : (sessOp cfg n sid mode (.addnoc s ca fid node subj ser)).2.accepted = true) :
+    specAddNocOrder n mode = true := by
+  have := ((addnoc_accept_iff cfg n sid s ca fid node subj ser mode).mp hacc).2
+  rw [specAddNoc_split, Bool.and_eq_true] at this
+  exact this.1
+
 /-! ## gating corollaries -/
 
 /-- a credential command is accepted only from the session context the fail-safe is bound to -/
@@ -147,7 +266,7 @@ theorem only_failsafe_context (cfg : Cfg) (n : Node) (sid : Nat) (mode : Mode) (
     simp only [specCsr, Bool.and_eq_true] at this; exact this.1.1
   · have := (root_accept_iff cfg n sid s c mode).mp hacc
     simp only [specRoot, Bool.and_eq_true] at this; exact this.1
-  · have := (addnoc_accept_iff cfg n sid s c f nd a r mode).mp hacc
+  · have := ((addnoc_accept_iff cfg n sid s c f nd a r mode).mp hacc).2
     simp only [specAddNoc, Bool.and_eq_true] at this; exact this.1.1.1.1.1.1.1.1.1
   · have := (updnoc_accept_iff cfg n sid s nd r mode).mp hacc
     simp only [specUpdNoc, Bool.and_eq_true] at this; exact this.1.1.1.1
@@ -201,6 +320,86 @@ theorem root_once (cfg : Cfg) (n : Node) (sid s s' ca ca' : Nat) (mode : Mode)
     | none => simp [hfs] at hspec
     | some a =>
       by_cases h1 : a.fab = mode.fab <;> by_cases h3 : a.flags.root <;> simp_all [ok]
+
+theorem addNoc_sets_flag (cfg : Cfg) (n : Node) (sid ca fid node subj ser : Nat) (mode : Mode)
+    (hacc : (addNoc cfg n sid mode ca fid node subj ser).2.accepted = true) :
+    (flagsOf (addNoc cfg n sid mode ca fid node subj ser).1).addNoc = true := by
+  generalize hres : addNoc cfg n sid mode ca fid node subj ser = r at hacc ⊢
+  simp only [addNoc] at hres
+  repeat' split at hres
+  all_goals (subst hres; first | (simp [Status.accepted] at hacc; done) | simp [flagsOf])
+
+/-- an accepted AddNOC records itself in the fail-safe context -/
+theorem addnoc_sets_flag (cfg : Cfg) (n : Node) (sid s ca fid node subj ser : Nat) (mode : Mode)
+    (hacc : (sessOp cfg n sid mode (.addnoc s ca fid node subj ser)).2.accepted = true) :
+    (flagsOf (sessOp cfg n sid mode (.addnoc s ca fid node subj ser)).1).addNoc = true := by
+  simp only [sessOp] at hacc ⊢
+  rcases hr : retryResum n with ⟨n1, b⟩
+  rw [hr] at hacc
+  cases b with
+  | false => simp [Status.accepted] at hacc
+  | true => exact addNoc_sets_flag cfg n1 sid ca fid node subj ser mode hacc
+
+/-- an accepted UpdateNOC records itself in the fail-safe context -/
+theorem updnoc_sets_flag (cfg : Cfg) (n : Node) (sid s node ser : Nat) (mode : Mode)
+    (hacc : (sessOp cfg n sid mode (.updnoc s node ser)).2.accepted = true) :
+    (flagsOf (sessOp cfg n sid mode (.updnoc s node ser)).1).updNoc = true := by
+  generalize hres : sessOp cfg n sid mode (.updnoc s node ser) = r at hacc ⊢
+  simp only [sessOp] at hres
+  repeat' split at hres
+  all_goals (subst hres; first | (simp [Status.accepted] at hacc; done) | simp [flagsOf, ok, setFabric])
+
+/-- **AddNOC / UpdateNOC at most once per fail-safe**: in a state whose fail-safe context carries the
+AddNOC or the UpdateNOC mark, neither command is accepted - from whatever session -/
+theorem noc_refused_after_noc (cfg : Cfg) (n : Node) (sid : Nat) (mode : Mode)
+    (h : ((flagsOf n).addNoc || (flagsOf n).updNoc) = true) :
+    (∀ s ca fid node subj ser, (sessOp cfg n sid mode (.addnoc s ca fid node subj ser)).2.accepted = false) ∧
+    (∀ s node ser, (sessOp cfg n sid mode (.updnoc s node ser)).2.accepted = false) := by
+  refine ⟨fun s ca fid node subj ser => ?_, fun s node ser => ?_⟩
+  · cases hacc : (sessOp cfg n sid mode (.addnoc s ca fid node subj ser)).2.accepted with
+    | false => rfl
+    | true =>
+      have := ((addnoc_accept_iff cfg n sid s ca fid node subj ser mode).mp hacc).2
+      simp only [specAddNoc, Bool.and_eq_true, Bool.not_eq_true', Bool.or_eq_false_iff] at this
+      have h1 := this.1.1.1.1.1.1.1.2
+      rw [h1.1.1, h1.2] at h
+      exact absurd h (by decide)
+  · cases hacc : (sessOp cfg n sid mode (.updnoc s node ser)).2.accepted with
+    | false => rfl
+    | true =>
+      have := (updnoc_accept_iff cfg n sid s node ser mode).mp hacc
+      simp only [specUpdNoc, Bool.and_eq_true, Bool.not_eq_true', Bool.or_eq_false_iff] at this
+      have h1 := this.1.2
+      rw [h1.1.1.2, h1.2] at h
+      exact absurd h (by decide)
+/-- a NOC command: AddNOC or UpdateNOC -/
+def isNoc (op : Op) : Prop :=
+  (∃ s c f nd a r, op = .addnoc s c f nd a r) ∨ (∃ s nd r, op = .updnoc s nd r)
+
+/-- **AddNOC / UpdateNOC at most once**: right after an accepted NOC command another one is refused -
+whichever of the two, from whichever session.  (The refusal holds in EVERY state whose context
+carries a NOC mark, `noc_refused_after_noc`, and the mark goes away only with the context:
+`noc_once_per_failsafe` below.) -/
+theorem noc_once (cfg : Cfg) (n : Node) (sid sid' : Nat) (mode mode' : Mode) (op op' : Op)
+    (hop : isNoc op) (hop' : isNoc op')
+    (hacc : (sessOp cfg n sid mode op).2.accepted = true) :
+    (sessOp cfg (sessOp cfg n sid mode op).1 sid' mode' op').2.accepted = false := by
+  have hmark : ((flagsOf (sessOp cfg n sid mode op).1).addNoc || (flagsOf (sessOp cfg n sid mode op).1).updNoc) = true := by
+    rcases hop with ⟨s, c, f, nd, a, r, rfl⟩ | ⟨s, nd, r, rfl⟩
+    · rw [addnoc_sets_flag cfg n sid s c f nd a r mode hacc]; rfl
+    · rw [updnoc_sets_flag cfg n sid s nd r mode hacc]; simp
+  have ⟨h1, h2⟩ := noc_refused_after_noc cfg (sessOp cfg n sid mode op).1 sid' mode' hmark
+  rcases hop' with ⟨s, c, f, nd, a, r, rfl⟩ | ⟨s, nd, r, rfl⟩
+  · exact h1 s c f nd a r
+  · exact h2 s nd r
+
+/-- an accepted AddNOC exists (so `noc_once` is not vacuous): the commissioning over PASE -/
+example :
+    let n := run {} {} [.boot, .pase, .arm 0 60, .csr 0 false, .root 0 1]
+    (sessOp {} n 0 (.pase 0) (.addnoc 0 1 5 10 100 1)).2.accepted = true ∧
+    (sessOp {} (sessOp {} n 0 (.pase 0) (.addnoc 0 1 5 10 100 1)).1 0 (.pase 1) (.addnoc 0 1 6 11 100 2)).2 =
+      .err "ConstraintError" := by
+  refine ⟨by decide, by decide⟩
 
 /-! ## coherence, rollback, commit -/
 
@@ -287,6 +486,23 @@ theorem commit_is_joint (cfg : Cfg) (ops : List Op) (hno : Op.freset ∉ ops) (s
   have ⟨h3, h4, h5⟩ := h2 hack
   exact ⟨h1, h3, h4, h5, h1.2.1 h3⟩
 
+theorem removeFabricKey_window (n : Node) (idx : Nat) : (removeFabricKey n idx).1.window = n.window := by
+  have hk : (kvTick n).1.window = n.window := by unfold kvTick; split <;> (try split) <;> rfl
+  unfold removeFabricKey
+  rcases ht : kvTick n with ⟨n1, bad⟩
+  rw [ht] at hk
+  cases bad with
+  | true => exact hk
+  | false =>
+    simp only [Bool.false_eq_true, if_false]
+    split <;> exact hk
+
+theorem undoAdded_window (n : Node) (idx : Nat) : (undoAdded n idx).window = n.window := by
+  unfold undoAdded
+  split
+  · exact removeFabricKey_window n idx
+  · rfl
+
 /-- a CommissioningComplete that is NOT acknowledged (wrong context, store failure at either write)
 leaves the fail-safe exactly as it was - armed: it rolls back at the expiry or can be retried
 (fixed finding `C08-complete-not-atomic`) -/
@@ -331,7 +547,14 @@ theorem complete_ok_or_unchanged (cfg : Cfg) (n : Node) (sid s : Nat) (mode : Mo
           rw [hr2] at hfr2 hw2
           simp only at hfr2 hw2
           cases b2 with
-          | false => exact Or.inr ⟨hfr2.fs.trans hfr1.fs, hfr2.sessions.trans hfr1.sessions, hw2.trans hw1⟩
+          | false =>
+            refine Or.inr ?_
+            simp only []
+            have hu := undoAdded_frame { n2 with managed := n1.managed } f.idx
+            have hwu : (undoAdded { n2 with managed := n1.managed } f.idx).window = n2.window :=
+              undoAdded_window _ f.idx
+            exact ⟨hu.fs.trans (hfr2.fs.trans hfr1.fs), hu.sessions.trans (hfr2.sessions.trans hfr1.sessions),
+              hwu.trans (hw2.trans hw1)⟩
           | true => exact Or.inl rfl
 
 theorem failed_complete_stays_armed (cfg : Cfg) (n : Node) (sid s : Nat) (mode : Mode)
@@ -342,22 +565,41 @@ theorem failed_complete_stays_armed (cfg : Cfg) (n : Node) (sid s : Nat) (mode :
   (complete_ok_or_unchanged cfg n sid s mode).resolve_left hfail
 
 /-- the commands of the commissioning in progress never write to the store: CSRRequest,
-AddTrustedRootCertificate, AddNOC, UpdateNOC, network changes and (re-)arming leave every key alone
+AddTrustedRootCertificate, UpdateNOC, network changes and (re-)arming leave every key alone
 (what they change lives in memory until CommissioningComplete) -/
 theorem commissioning_ops_keep_store (cfg : Cfg) (n : Node) (sid : Nat) (mode : Mode) (op : Op)
     (hop : (∃ s u, op = .csr s u) ∨ (∃ s c, op = .root s c) ∨
-           (∃ s c f nd a r, op = .addnoc s c f nd a r) ∨ (∃ s nd r, op = .updnoc s nd r) ∨
+           (∃ s nd r, op = .updnoc s nd r) ∨
            (∃ s v, op = .net s v) ∨ (∃ s v, op = .rmnet s v) ∨ (∃ s t, op = .arm s t ∧ t ≠ 0)) :
     (sessOp cfg n sid mode op).1.kv = n.kv ∧ (sessOp cfg n sid mode op).1.hist = n.hist := by
   refine sessOp_store_untouched cfg n sid mode op ?_
-  rcases hop with h | h | h | h | h | h | h
+  rcases hop with h | h | h | h | h | h
   · exact Or.inl h
   · exact Or.inr (Or.inl h)
   · exact Or.inr (Or.inr (Or.inl h))
   · exact Or.inr (Or.inr (Or.inr (Or.inl h)))
   · exact Or.inr (Or.inr (Or.inr (Or.inr (Or.inl h))))
   · exact Or.inr (Or.inr (Or.inr (Or.inr (Or.inr (Or.inl h)))))
-  · exact Or.inr (Or.inr (Or.inr (Or.inr (Or.inr (Or.inr (Or.inl h))))))
+
+/-- ... and AddNOC writes no fabric key and no networks key: the only key it may write is the
+resumption cache (the retry of a store that had failed) -/
+theorem addnoc_keeps_committed_keys (cfg : Cfg) (n : Node) (sid s ca fid node subj ser : Nat) (mode : Mode) :
+    (sessOp cfg n sid mode (.addnoc s ca fid node subj ser)).1.kv.fabs = n.kv.fabs ∧
+    (sessOp cfg n sid mode (.addnoc s ca fid node subj ser)).1.kv.nets = n.kv.nets := by
+  simp only [sessOp]
+  rcases retryResum_cases n with hr | hr
+  · rw [hr]
+    have := (addNoc_store_untouched cfg n sid mode ca fid node subj ser).1
+    simp only [this]; exact ⟨triv, triv⟩
+  · rw [hr]
+    have ⟨_, hf, hn, _⟩ := storeResum_spec n
+    rcases hst : storeResum n with ⟨n1, b⟩
+    rw [hst] at hf hn
+    cases b with
+    | false => exact ⟨hf, hn⟩
+    | true =>
+      have := (addNoc_store_untouched cfg n1 sid mode ca fid node subj ser).1
+      simp only [this]; exact ⟨hf, hn⟩
 
 /-- an ACL write of the fabric the fail-safe is armed for is deferred: the store is not touched, and
 the fail-safe context remembers it -/
@@ -394,7 +636,7 @@ theorem addnoc_refused_while_deferred (cfg : Cfg) (n : Node) (sid s ca fid node 
   cases hacc : (sessOp cfg n sid mode (.addnoc s ca fid node subj ser)).2.accepted with
   | false => rfl
   | true =>
-    have := (addnoc_accept_iff cfg n sid s ca fid node subj ser mode).mp hacc
+    have := ((addnoc_accept_iff cfg n sid s ca fid node subj ser mode).mp hacc).2
     simp only [specAddNoc, Bool.and_eq_true, Bool.not_eq_true', Bool.and_eq_false_iff] at this
     rcases this.1.2 with h | h
     · simp [hfab] at h
@@ -456,6 +698,31 @@ theorem rollback_restores_state_before_arming (cfg : Cfg) (ops0 ops1 : List Op)
   · rw [hag.2, hag0.2]
     simp only [kvNets, h3, hk2]
 
+/-- **The restart leg: exactly what they were before arming.**  The same quiescent clean state `q`,
+then any history `ops1` during which nothing is committed to the fabric / network keys (whatever
+else happens: arming, credential commands, deferred writes, failing writes), then the node restarts
+(`m` = whatever is in memory): it comes up with EXACTLY the fabric records and the networks of `q`,
+no fail-safe, no session. -/
+theorem restart_restores_state_before_arming (cfg : Cfg) (ops0 ops1 : List Op)
+    (hno0 : Op.freset ∉ ops0) (hclean0 : dirtyRun cfg {} [] ops0 = []) (hidle : (run cfg {} ops0).fs = none)
+    (hq : StoreQuiet cfg (run cfg {} ops0) ops1) (m : Node) :
+    (∀ i, i ≠ 0 → getFabric (restartFrom m (run cfg (run cfg {} ops0) ops1).kv (run cfg (run cfg {} ops0) ops1).hist) i =
+                  getFabric (run cfg {} ops0) i) ∧
+    ((restartFrom m (run cfg (run cfg {} ops0) ops1).kv (run cfg (run cfg {} ops0) ops1).hist).nets,
+     (restartFrom m (run cfg (run cfg {} ops0) ops1).kv (run cfg (run cfg {} ops0) ops1).hist).managed) =
+      ((run cfg {} ops0).nets, (run cfg {} ops0).managed) ∧
+    (restartFrom m (run cfg (run cfg {} ops0) ops1).kv (run cfg (run cfg {} ops0) ops1).hist).fs = none ∧
+    (restartFrom m (run cfg (run cfg {} ops0) ops1).kv (run cfg (run cfg {} ops0) ops1).hist).sessions = [] := by
+  have hc0 : Coh (run cfg {} ops0) := coherent_always cfg ops0 hno0 hclean0
+  have hag0 := agree_of_cohD_idle hc0 hidle
+  have ⟨hk1, hk2⟩ := storeQuiet_run cfg ops1 _ hq
+  have ⟨hag, hfs, _, h4, h5, h6⟩ := restartFrom_agree m (run cfg (run cfg {} ops0) ops1).kv (run cfg (run cfg {} ops0) ops1).hist
+  refine ⟨fun i hi => ?_, ?_, hfs, h6⟩
+  · rw [hag.1 i hi, hag0.1 i hi]
+    simp only [kvF, h4, hk1]
+  · rw [hag.2, hag0.2]
+    simp only [kvNets, h5, hk2]
+
 /-- the hypotheses of `rollback_restores_state_before_arming` are satisfiable: a commissioned node
 (`ops0`), then ArmFailSafe over CASE, a deferred ACL write, CSRRequest(update), UpdateNOC, a network
 change (`ops1`) - armed, store quiet, and the expiry succeeds -/
@@ -468,6 +735,358 @@ example :
     (∃ a, (run {} (run {} {} ops0) ops1).fs = some a ∧
       (expireArmed {} (run {} (run {} {} ops0) ops1) a none).2.1 = none) := by
   refine ⟨by decide, by decide, by decide, by decide, by decide, by decide, ⟨_, rfl, by decide⟩⟩
+
+/-! ## the NOC mark lives as long as the fail-safe context ("at most once per fail-safe") -/
+
+/-- the fail-safe context is gone, or it still carries a NOC mark -/
+def NocMarkOrIdle (n : Node) : Prop :=
+  n.fs = none ∨ ∃ a, n.fs = some a ∧ (a.flags.addNoc || a.flags.updNoc) = true
+
+theorem nocMark_of_fs {n n' : Node} (h : n'.fs = n.fs) (hm : NocMarkOrIdle n) : NocMarkOrIdle n' := by
+  unfold NocMarkOrIdle at *; rw [h]; exact hm
+
+theorem expire_fs (cfg : Cfg) (n : Node) (exp : Option Nat) :
+    (expire cfg n exp).1.fs = none ∨ (expire cfg n exp).1.fs = n.fs := by
+  unfold expire
+  cases hfs : n.fs with
+  | none => exact Or.inl hfs
+  | some a =>
+    simp only []
+    unfold expireAndPurge
+    have hE : (expireArmed cfg n a exp).1.fs = none ∨ (expireArmed cfg n a exp).1 = n := by
+      unfold expireArmed
+      cases rollbackFabrics cfg n a with
+      | error e => exact Or.inr rfl
+      | ok fs => exact Or.inl rfl
+    rcases hres : expireArmed cfg n a exp with ⟨n1, e, r⟩
+    rw [hres] at hE
+    simp only at hE
+    cases e with
+    | some e => simp only []; rcases hE with h | h; exact Or.inl h; exact Or.inr (by rw [h, hfs])
+    | none =>
+      cases r with
+      | none => simp only []; rcases hE with h | h; exact Or.inl h; exact Or.inr (by rw [h, hfs])
+      | some idx =>
+        simp only []
+        have hp := (purgeResum_spec n1 idx).2.2.1
+        rcases hpr : purgeResum n1 idx with ⟨n2, b⟩
+        rw [hpr] at hp
+        simp only at hp
+        cases b <;> (simp only []; rw [hp]; rcases hE with h | h; exact Or.inl h; exact Or.inr (by rw [h, hfs]))
+
+theorem nocMark_of_fs_or {n n' : Node} (h : n'.fs = none ∨ n'.fs = n.fs) (hm : NocMarkOrIdle n) : NocMarkOrIdle n' := by
+  rcases h with h | h
+  · exact Or.inl h
+  · exact nocMark_of_fs h hm
+
+theorem writeResult_fs (n : Node) (f f' : Fabric) (hm : NocMarkOrIdle n) : NocMarkOrIdle (writeResult n f f').1 := by
+  unfold writeResult
+  split
+  · simp only [ok]
+    unfold markDeferred
+    cases hfs : (setFabric n f').fs with
+    | none => exact Or.inl (by simp [hfs])
+    | some a =>
+      have hfs' : n.fs = some a := hfs
+      rcases hm with h | ⟨a0, h, hk⟩
+      · rw [h] at hfs'; cases hfs'
+      · rw [h] at hfs'; injection hfs' with e; subst e
+        exact Or.inr ⟨_, rfl, hk⟩
+  · have hfr := (storeFabric_spec (setFabric n f') f').1
+    rcases hr : storeFabric (setFabric n f') f' with ⟨n2, b⟩
+    rw [hr] at hfr
+    have : n2.fs = n.fs := hfr.fs
+    cases b <;> exact nocMark_of_fs this hm
+
+theorem complete_ok_idle (cfg : Cfg) (n : Node) (sid s : Nat) (mode : Mode)
+    (hok : (sessOp cfg n sid mode (.complete s)).2 = .ok) : (sessOp cfg n sid mode (.complete s)).1.fs = none := by
+  generalize hres : sessOp cfg n sid mode (.complete s) = r at hok ⊢
+  simp only [sessOp] at hres
+  repeat' split at hres
+  all_goals (subst hres; first | (simp at hok; done) | rfl)
+
+/-- **The NOC mark goes away only with the fail-safe context**: whatever command arrives over whatever
+session, afterwards the fail-safe is idle or its context still carries the mark -/
+theorem sessOp_keeps_noc_mark (cfg : Cfg) (n : Node) (sid : Nat) (mode : Mode) (op : Op)
+    (a : Armed) (hfs : n.fs = some a) (hk : (a.flags.addNoc || a.flags.updNoc) = true) :
+    NocMarkOrIdle (sessOp cfg n sid mode op).1 := by
+  have hm : NocMarkOrIdle n := Or.inr ⟨a, hfs, hk⟩
+  cases op with
+  | openW s =>
+    simp only [sessOp]
+    have hw : (windowTimeout n).fs = n.fs := by unfold windowTimeout; split <;> (try split) <;> rfl
+    split
+    · exact nocMark_of_fs hw hm
+    · exact nocMark_of_fs (n' := { windowTimeout n with window := _ }) hw hm
+  | arm s secs =>
+    simp only [sessOp]
+    split
+    · have := expire_fs cfg n (some sid)
+      rcases hr : expire cfg n (some sid) with ⟨n1, e⟩
+      rw [hr] at this
+      cases e <;> exact nocMark_of_fs_or this hm
+    · rw [hfs]
+      simp only []
+      split
+      · exact hm
+      · exact Or.inr ⟨_, rfl, hk⟩
+  | csr s upd =>
+    simp only [sessOp]
+    split
+    · exact hm
+    · split
+      · exact hm
+      · rw [hfs]
+        simp only []
+        split
+        · exact hm
+        · simp only [ok]
+          split <;> exact Or.inr ⟨_, rfl, hk⟩
+  | root s ca =>
+    simp only [sessOp]
+    split
+    · exact hm
+    · rw [hfs]
+      simp only []
+      split
+      · exact hm
+      · exact Or.inr ⟨_, rfl, hk⟩
+  | addnoc s ca fid node subj ser =>
+    have hrej := (noc_refused_after_noc cfg n sid mode (by simp [flagsOf, hfs, hk])).1 s ca fid node subj ser
+    simp only [sessOp] at hrej ⊢
+    have ⟨h1, _, _⟩ := retryResum_same n
+    rcases hr : retryResum n with ⟨n1, b⟩
+    rw [hr] at h1 hrej
+    simp only at h1
+    cases b with
+    | false => exact nocMark_of_fs h1 hm
+    | true =>
+      simp only [] at hrej ⊢
+      -- rejected: `addNoc` leaves the state as it is, except in the scope-guard branch (an acceptance undone)
+      have hfs1 : n1.fs = some a := by rw [h1]; exact hfs
+      simp only [addNoc, checkArmed, checkState, hfs1]
+      have hk' : (a.flags.addNoc || a.flags.updCsr || a.flags.updNoc) = true := by
+        rcases Bool.or_eq_true_iff.mp hk with h | h <;> simp [h]
+      repeat' split
+      all_goals first | exact Or.inr ⟨a, hfs1, hk⟩ | exact Or.inr ⟨_, rfl, by simp⟩ | simp_all
+  | updnoc s node ser =>
+    simp only [sessOp, checkArmed, checkState, hfs]
+    have hk' : (a.flags.root || a.flags.addNoc || a.flags.addCsr || a.flags.updNoc) = true := by
+      rcases Bool.or_eq_true_iff.mp hk with h | h <;> simp [h]
+    repeat' split
+    all_goals first | exact Or.inr ⟨a, hfs, hk⟩ | exact Or.inr ⟨_, rfl, by simp⟩ | simp_all
+  | acl s v =>
+    simp only [sessOp]
+    split
+    · exact hm
+    · cases hg : getFabric n mode.fab with
+      | none => exact hm
+      | some f =>
+        simp only []
+        split
+        · exact hm
+        · exact writeResult_fs n f { f with acl := f.acl ++ [v] } hm
+  | grp s v =>
+    simp only [sessOp]
+    split
+    · exact hm
+    · cases hg : getFabric n mode.fab with
+      | none => exact hm
+      | some f =>
+        simp only []
+        split
+        · exact hm
+        · exact writeResult_fs n f (if f.grp.contains v then f else { f with grp := f.grp ++ [v] }) hm
+  | label s v =>
+    simp only [sessOp]
+    split
+    · exact hm
+    · split
+      · exact hm
+      · cases hg : getFabric n mode.fab with
+        | none => exact hm
+        | some f => exact writeResult_fs n f { f with label := v } hm
+  | fwrite s =>
+    simp only [sessOp]
+    split
+    · exact hm
+    · cases hg : getFabric n mode.fab with
+      | none => exact hm
+      | some f => exact writeResult_fs n f f hm
+  | net s v =>
+    simp only [sessOp]
+    repeat' split
+    all_goals exact nocMark_of_fs rfl hm
+  | rmnet s v =>
+    simp only [sessOp]
+    repeat' split
+    all_goals exact nocMark_of_fs rfl hm
+  | complete s =>
+    rcases complete_ok_or_unchanged cfg n sid s mode with h | h
+    · exact Or.inl (complete_ok_idle cfg n sid s mode h)
+    · exact nocMark_of_fs h.1 hm
+  | rmfab s idx =>
+    simp only [sessOp]
+    split
+    · exact hm
+    · split
+      · have hp := (purgeResum_spec n idx).2.2.1
+        rcases hpr : purgeResum n idx with ⟨n2, b⟩
+        rw [hpr] at hp
+        simp only at hp
+        cases b with
+        | false => exact nocMark_of_fs hp hm
+        | true =>
+          simp only []
+          have hfr := (removeFabricKey_spec n2 idx).1
+          rcases hrk : removeFabricKey n2 idx with ⟨n3, b3⟩
+          rw [hrk] at hfr
+          have h3 : n3.fs = n.fs := by rw [hfr.fs]; exact hp
+          cases b3 with
+          | false => exact nocMark_of_fs h3 hm
+          | true => exact nocMark_of_fs (n' := { n3 with fabrics := _, sessions := _ }) h3 hm
+      · exact hm
+  | revoke s =>
+    simp only [sessOp]
+    have := expire_fs cfg n (some sid)
+    rcases hr : expire cfg n (some sid) with ⟨n1, e⟩
+    rw [hr] at this
+    cases e with
+    | some e => exact nocMark_of_fs_or this hm
+    | none => exact nocMark_of_fs_or (n' := { n1 with window := none }) this hm
+  | bcw s v => exact nocMark_of_fs (n' := { n with bc := v }) rfl hm
+  | _ => exact hm
+
+theorem checkTimeouts_live (cfg : Cfg) (n : Node) (sid : Option Nat) (a : Armed) (hfs : n.fs = some a)
+    (hlive : n.now < a.armedAt + a.timeout) : (checkTimeouts cfg n sid).1.fs = n.fs := by
+  have hw : (windowTimeout n).fs = n.fs := by unfold windowTimeout; split <;> (try split) <;> rfl
+  unfold checkTimeouts
+  rw [hfs]
+  simp only []
+  have : ¬ (n.now ≥ a.armedAt + a.timeout) := by omega
+  simp only [this, if_false]
+  rw [hw, hfs]
+
+/-- **... over whole steps**: while the fail-safe timer has not run out, every operation - command
+with its prologue, session establishment, time, store fault, restart, factory reset - leaves the
+fail-safe idle or its context still carrying the NOC mark.  (When the timer HAS run out the prologue
+of the next command ends the context; an ArmFailSafe then begins a new one.) -/
+theorem step_keeps_noc_mark (cfg : Cfg) (n : Node) (op : Op) (a : Armed) (hfs : n.fs = some a)
+    (hk : (a.flags.addNoc || a.flags.updNoc) = true) (hlive : n.now < a.armedAt + a.timeout) :
+    NocMarkOrIdle (step cfg n op).1 := by
+  have hm : NocMarkOrIdle n := Or.inr ⟨a, hfs, hk⟩
+  cases hso : isSessOp op with
+  | some sid =>
+    have hpro := checkTimeouts_live cfg n (some sid) a hfs hlive
+    rcases step_sess cfg n op sid hso with e | e | ⟨s1, _, e⟩
+    · rw [e]; exact hm
+    · rw [e]; exact nocMark_of_fs hpro hm
+    · rw [e]; exact sessOp_keeps_noc_mark cfg _ sid s1.mode op a (by rw [hpro]; exact hfs) hk
+  | none =>
+    cases op with
+    | boot => simp only [step, isSessOp]; split <;> first | exact hm | exact nocMark_of_fs (n' := { n with window := _ }) rfl hm
+    | pase =>
+      simp only [step, isSessOp]
+      split
+      · exact hm
+      · have hf : (addSess cfg n (.pase 0) 0 0).1.fs = n.fs := by unfold addSess; simp only []; split <;> rfl
+        rcases hr : addSess cfg n (.pase 0) 0 0 with ⟨n1, o⟩
+        rw [hr] at hf
+        cases o <;> exact nocMark_of_fs hf hm
+    | caseEst fab node rid =>
+      simp only [step, isSessOp]
+      split
+      · exact hm
+      · rename_i f _
+        have hf : (addSess cfg n (.case fab) node f.gen).1.fs = n.fs := by unfold addSess; simp only []; split <;> rfl
+        rcases hr : addSess cfg n (.case fab) node f.gen with ⟨n1, o⟩
+        rw [hr] at hf
+        cases o
+        · exact nocMark_of_fs hf hm
+        · exact nocMark_of_fs (n' := { n1 with resum := _ }) hf hm
+    | resume rid newRid =>
+      simp only [step, isSessOp]
+      split
+      · exact hm
+      · rename_i r _
+        split
+        · exact hm
+        · have hf : (addSess cfg n (.case r.fab) r.peer r.gen).1.fs = n.fs := by unfold addSess; simp only []; split <;> rfl
+          rcases hr : addSess cfg n (.case r.fab) r.peer r.gen with ⟨n1, o⟩
+          rw [hr] at hf
+          cases o
+          · exact nocMark_of_fs hf hm
+          · exact nocMark_of_fs (n' := { n1 with resum := _ }) hf hm
+    | hs fab node rid =>
+      simp only [step, isSessOp]
+      split
+      · exact hm
+      · rename_i f _
+        have hf : (addSess cfg n (.case fab) node f.gen).1.fs = n.fs := by unfold addSess; simp only []; split <;> rfl
+        rcases hr : addSess cfg n (.case fab) node f.gen with ⟨n1, o⟩
+        rw [hr] at hf
+        cases o
+        · exact nocMark_of_fs hf hm
+        · exact nocMark_of_fs (n' := { n1 with sessions := _, resum := _, pending := _ }) hf hm
+    | hsdone sid => simp only [step, isSessOp]; split <;> first | exact hm | exact nocMark_of_fs (n' := { n with pending := _, sessions := _ }) rfl hm
+    | sdrop sid => simp only [step, isSessOp]; split <;> first | exact hm | exact nocMark_of_fs (n' := { n with sessions := _ }) rfl hm
+    | tick secs => exact nocMark_of_fs (n' := { n with now := _ }) rfl hm
+    | poll =>
+      simp only [step, isSessOp]
+      have hpro := checkTimeouts_live cfg n none a hfs hlive
+      rcases hr : checkTimeouts cfg n none with ⟨n1, e⟩
+      rw [hr] at hpro
+      cases e <;> exact nocMark_of_fs hpro hm
+    | flush =>
+      simp only [step, isSessOp]
+      have hfr := (storeResum_spec n).1
+      rcases hst : storeResum n with ⟨n1, b⟩
+      rw [hst] at hfr
+      cases b <;> exact nocMark_of_fs hfr.fs hm
+    | restart => exact Or.inl (restartFrom_agree n _ _).2.1
+    | crash k => exact Or.inl (restartFrom_agree n _ _).2.1
+    | corrupt => exact Or.inl (restartFrom_agree n _ _).2.1
+    | coldreset => exact Or.inl rfl
+    | fabrecover i => exact Or.inl rfl
+    | kvfail k => exact nocMark_of_fs (n' := { n with failIn := _ }) rfl hm
+    | nop => exact hm
+    | freset => exact nocMark_of_fs (factoryReset_mem n).2.2.2.2.2.2.2 hm
+    | _ => simp [isSessOp] at hso
+
+/-- **AddNOC / UpdateNOC at most once per fail-safe, over histories**: take a state whose fail-safe
+context carries a NOC mark (the state after an accepted AddNOC / UpdateNOC: `addnoc_sets_flag`,
+`updnoc_sets_flag`) and ANY history from there during which the fail-safe timer does not run out
+(commands over any session, session establishments, time within the timeout, store faults,
+restarts, ...).  Either the context has ENDED at some point of it (`fs = none`: completed, rolled
+back, restarted), or the context at the end still carries the mark - and then (`noc_refused_after_noc`)
+every AddNOC / UpdateNOC, from whichever session, is refused. -/
+theorem noc_once_per_failsafe (cfg : Cfg) : ∀ (ops : List Op) (n : Node) (a : Armed), n.fs = some a →
+    (a.flags.addNoc || a.flags.updNoc) = true →
+    (∀ pre, pre <+: ops → ∀ b, (run cfg n pre).fs = some b → (run cfg n pre).now < b.armedAt + b.timeout) →
+    (∃ pre, pre <+: ops ∧ (run cfg n pre).fs = none) ∨
+    (∃ b, (run cfg n ops).fs = some b ∧ (b.flags.addNoc || b.flags.updNoc) = true) := by
+  intro ops
+  induction ops with
+  | nil => intro n a hfs hk _; exact Or.inr ⟨a, hfs, hk⟩
+  | cons op rest ih =>
+    intro n a hfs hk hl
+    rcases step_keeps_noc_mark cfg n op a hfs hk (hl [] List.nil_prefix a hfs) with h | ⟨b, hb, hkb⟩
+    · exact Or.inl ⟨[op], List.cons_prefix_cons.mpr ⟨rfl, List.nil_prefix⟩, h⟩
+    · rcases ih (step cfg n op).1 b hb hkb
+          (fun pre hp c hc => hl (op :: pre) (List.cons_prefix_cons.mpr ⟨rfl, hp⟩) c hc) with ⟨pre, hp, hn⟩ | h
+      · exact Or.inl ⟨op :: pre, List.cons_prefix_cons.mpr ⟨rfl, hp⟩, hn⟩
+      · exact Or.inr h
+
+/-- the hypotheses are satisfiable: after an accepted AddNOC, a CASE session is established, an ACL
+write is deferred, 30 seconds pass - the context lives on, marked, and UpdateNOC over the CASE
+session is refused -/
+example :
+    let n := run {} {} [.boot, .pase, .arm 0 60, .csr 0 false, .root 0 1, .addnoc 0 1 5 10 100 1]
+    let ops : List Op := [.caseEst 1 100 1, .acl 1 200, .tick 30, .csr 1 true]
+    (∃ a, n.fs = some a ∧ (a.flags.addNoc || a.flags.updNoc) = true) ∧
+    (∃ b, (run {} n ops).fs = some b ∧ (b.flags.addNoc || b.flags.updNoc) = true) ∧
+    (step {} (run {} n ops) (.updnoc 1 11 2)).2.accepted = false := by
+  refine ⟨⟨_, rfl, by decide⟩, ⟨_, rfl, by decide⟩, by decide⟩
 
 /-! ## the full statements -/
 
@@ -506,17 +1125,48 @@ def C08_full_rollback : Prop :=
     ∀ i, i ≠ 0 → getFabric (expireAndPurge cfg (run cfg (run cfg {} ops0) ops1) a exp).1 i =
                   getFabric (run cfg {} ops0) i
 
-/-- FALSE of the code (open finding `C08-complete-partial-commit`): CommissioningComplete writes the
-fabric, then the networks; when the SECOND write fails the command is answered with an error and the
-fail-safe stays armed, but the fabric record is in the store - the expiry then "restores" it. -/
+/-- FALSE of the code (open finding `C08-complete-partial-commit`, the half that is left):
+CommissioningComplete writes the fabric, then the networks; when the SECOND write fails the command
+is answered with an error and the fail-safe stays armed. For a fabric ADDED under the fail-safe the
+record is removed again (`failed_complete_added_fabric_rolls_back`); for a fabric that EXISTED before
+(UpdateNOC, deferred writes) the store holds only the new record - the old one is gone, nothing can be
+put back, and the expiry "restores" the uncommitted identity. -/
 theorem C08_full_rollback_false : ¬ C08_full_rollback := by
   intro h
-  have := h {} [] [.boot, .pase, .arm 0 60, .csr 0 false, .root 0 1, .addnoc 0 1 5 10 100 1,
-    .caseEst 1 100 1, .kvfail 2, .complete 1]
-    { fab := 1, flags := { addCsr := true, root := true, addNoc := true }, timeout := 60, armedAt := 0 } none
+  have := h {} [.boot, .pase, .arm 0 60, .csr 0 false, .root 0 1, .addnoc 0 1 5 10 100 1,
+    .caseEst 1 100 1, .complete 1] [.arm 1 60, .net 1 3, .csr 1 true, .updnoc 1 11 2, .kvfail 2, .complete 1]
+    { fab := 1, flags := { updCsr := true, updNoc := true }, timeout := 60, armedAt := 0 } none
     (by decide) (by decide) (by decide) (by decide) (by decide) (by decide) (by decide) (by decide) 1 (by decide)
   revert this
   decide
+
+/-- **the repaired half** (`C08-complete-partial-commit` for the commissioning of a NEW fabric): after
+any history, a CommissioningComplete of a fabric added under the fail-safe that is not acknowledged -
+whichever write fails - leaves the fabric records and the networks in the store exactly as they were;
+the fail-safe stays armed (`failed_complete_stays_armed`), so the expiry rolls the commissioning back
+(`rollback_restores`) and a restart comes up without it. -/
+theorem failed_complete_added_fabric_rolls_back (cfg : Cfg) (n : Node) (sid s : Nat) (mode : Mode) (a : Armed)
+    (hfs : n.fs = some a) (hadd : a.flags.addNoc = true) (hnone : kvF n.kv mode.fab = none)
+    (hfail : (sessOp cfg n sid mode (.complete s)).2 ≠ .ok) :
+    (∀ i, kvF (sessOp cfg n sid mode (.complete s)).1.kv i = kvF n.kv i) ∧
+    (sessOp cfg n sid mode (.complete s)).1.kv.nets = n.kv.nets ∧
+    (sessOp cfg n sid mode (.complete s)).1.fs = n.fs :=
+  ⟨(failed_complete_of_added_fabric_undone cfg n sid s mode a hfs hadd hnone hfail).1,
+   (failed_complete_of_added_fabric_undone cfg n sid s mode a hfs hadd hnone hfail).2,
+   (failed_complete_stays_armed cfg n sid s mode hfail).1⟩
+
+/-- the hypotheses are met by the replay of the repaired finding: second write of the
+CommissioningComplete of a new fabric fails; afterwards the store holds no fabric, and the expiry
+leaves none in the node -/
+example :
+    let n := run {} {} [.boot, .pase, .arm 0 60, .net 0 3, .csr 0 false, .root 0 2, .addnoc 0 2 2 10 100 1,
+      .caseEst 1 101 1, .kvfail 2]
+    (∃ a, n.fs = some a ∧ a.flags.addNoc = true) ∧ kvF n.kv 1 = none ∧
+    (sessOp {} n 1 (.case 1) (.complete 1)).2 = .err "NoSpace" ∧
+    (sessOp {} n 1 (.case 1) (.complete 1)).1.kv.fabs = [] ∧
+    (sessOp {} n 1 (.case 1) (.complete 1)).1.hist.length = 2 ∧
+    (run {} (sessOp {} n 1 (.case 1) (.complete 1)).1 [.tick 61, .poll]).fabrics = [] := by
+  refine ⟨⟨_, rfl, by decide⟩, by decide, by decide, by decide, by decide, by decide⟩
 
 /-! ## RevokeCommissioning / OpenCommissioningWindow and the fail-safe -/
 
